@@ -22,13 +22,13 @@ RULE = ("programs of 1-6 Echo commands (string, number, boolean, path, data type
         "non-ASCII, leading/trailing blanks, empty, control characters) and numbers (huge ints, exponent-form floats, -0.0), built from "
         "source and through add_command (names and Command objects as references); plus random EEMS models from source and API; "
         "distinct by (builder, parameter kinds used, string/number feature classes)")
-REQUIRED_COUNTERS = ["round_trips", "values_compared", "result_pairs_compared", "fixpoints_checked", "to_file_checks"]
+REQUIRED_COUNTERS = ["round_trips", "values_compared", "result_pairs_compared", "fixpoints_checked", "to_file_checks", "eems2_histories"]
 ASSUMPTIONS = ["layout of the text and key order of metadata are not judged", "NaN/inf and type objects as argument values are never generated",
                "result names are identifiers"]
 
 STR_POOL = ["plain", "two words", "", " lead", "trail ", "  ", 'say "hi"', "it's", "back\\slash", "C:\\path\\to\\file.csv", "a,b", "k: v", "[x]", "(y)", "a = b", "# not a comment",
             "é ü Ω 日本 —", "tab\there", "line\nbreak", "ls\u2028sep ps\u2029", "zero\u200bwidth", "bom\ufeffinside", "ideographic\u3000space", "ff\x0cvt\x0bnel\x85", "nul-free ctrl \x01\x1f\x7f", "emoji 😀",
-            "cr\rlf", 'mix "\' \\ #:,=()[]', "\\", '"', "'", "\\\\n", "ends with backslash\\", "100%", "True", "1.5", "12", "Float", "1e-05"]
+            "cr\rlf", 'mix "\' \\ #:,=()[]', "\\", '"', "'", "\\\\n", "ends with backslash\\", "100%", "True", "1.5", "12", "Float", "1e-05", "01234", "007", "1.50", "+5", ".5", "1e3", "-0", "0x10", "1_000", "inf", "nan", " 12 "]
 NUM_POOL = [0, 1, -1, 12, 2 ** 70, -2 ** 63, 0.0, -0.0, 1.5, 1e-05, 1e+22, 5e-324, 1.7976931348623157e+308, 0.1, 123456789.125, 2.5e-7, 1e16, 1e15]
 
 
@@ -241,6 +241,13 @@ def run_case(ctx, case):
         ctx.dontcare("program under test could not be built (%s): judged by C10/C12" % type(e).__name__)
         return
     builder = case["builder"]
+    if case["rseed"] % 11 == 0:
+        # history: an EEMS 2.0 style file was loaded earlier in this process
+        try:
+            Program.from_source('READ(InFileName = "nowhere.csv", InFieldName = Q, NewFieldName = Q2, OutFileName = "x")', libraries=arr.CSV_LIBS, working_dir=d)
+        except Exception:
+            pass
+        ctx.count("eems2_histories")
     raw_args = {}
     for c in (case["commands"] if case["kind"] == "echo" else case["model"]["commands"]):
         for k, v in c["args"].items():
